@@ -228,7 +228,9 @@ fn run_tcp(script: &str, cfg: &Cfg, table: &Arc<RwLock<HashMap<u32, Plane>>>, ke
         let mut a = make_args(cfg, "");
         a.tcp = format!("{}", addr);
         let _ = listener_up;
-        let planes = Planes { aircrafts: table.clone() };
+        #[allow(unused_mut)]
+        let mut planes = Planes::new();
+        planes.aircrafts = table.clone();
         let _detached = spawn_reader_thread(Arc::new(a), planes);
     };
     while i < steps.len() {
@@ -414,7 +416,9 @@ fn main() {
                         let path = tmpdir.join(format!("sqh-{}-{}.txt", std::process::id(), seg_no));
                         std::fs::write(&path, &buf).expect("write segment");
                         let args = Arc::new(make_args(&cfg, path.to_str().unwrap()));
-                        let planes = Planes { aircrafts: table.clone() };
+                        #[allow(unused_mut)]
+        let mut planes = Planes::new();
+        planes.aircrafts = table.clone();
                         println!("@@SEG {} BEGIN", seg_no);
                         std::io::stdout().flush().ok();
                         let r = spawn_reader_thread(args, planes).join();
@@ -486,7 +490,10 @@ fn main() {
                     let args = make_args(&cfg, "");
                     println!("@@RENDER BEGIN");
                     print!("{}{}", h.header, h.separator);
-                    Planes { aircrafts: table.clone() }.print(&args, &flags);
+                    #[allow(unused_mut)]
+                    let mut pl = Planes::new();
+                    pl.aircrafts = table.clone();
+                    pl.print(&args, &flags);
                     std::io::stdout().flush().ok();
                     println!("@@RENDER END");
                     writeln!(o, "render").unwrap();
